@@ -88,10 +88,36 @@ def config_args(cfg):
     return args
 
 
-def map_model(prog, feats):
-    """id(model object) -> path, and path -> object"""
+class LazyMap(dict):
+    """id(model object) -> path. Outline rows are NOT expanded before the run (behave's own runner does not
+    do that either, and code that reads `outline._scenarios` must see what a real run would show): rows are
+    mapped on demand from `outline._scenarios` once behave has built them, and completely by finalize()."""
+
+    def __init__(self):
+        dict.__init__(self)
+        self.outlines = []      # (path, outline object, expected number of rows)
+        self.p2o = {}
+
+    def refresh(self, build=False):
+        for path, obj, n in self.outlines:
+            rows = list(obj.scenarios) if build else list(obj._scenarios)
+            if build:
+                assert len(rows) == n, "outline %r: %d scenarios for %d rows" % (path, len(rows), n)
+            for ri, s in enumerate(rows):
+                self[id(s)] = path + (ri,)
+                self.p2o[path + (ri,)] = s
+
+    def get(self, key, default=None):
+        if key not in self:
+            self.refresh()
+        return dict.get(self, key, default)
+
+
+def map_model(prog, feats, prebuild=False):
+    """id(model object) -> path (LazyMap), and path -> object"""
     m = _imp()
-    o2p, p2o = {}, {}
+    o2p = LazyMap()
+    p2o = o2p.p2o
 
     def walk(cont, node, path):
         o2p[id(node)] = path
@@ -107,18 +133,15 @@ def map_model(prog, feats):
                 assert isinstance(obj, m["ScenarioOutline"]), (p, obj)
                 o2p[id(obj)] = p
                 p2o[p] = obj
-                rows = list(obj.scenarios)
-                n = sum(len(r) for _, r in it[3])
-                assert len(rows) == n, "outline %r: %d scenarios for %d rows" % (p, len(rows), n)
-                for ri, s in enumerate(rows):
-                    o2p[id(s)] = p + (ri,)
-                    p2o[p + (ri,)] = s
+                o2p.outlines.append((p, obj, sum(len(r) for _, r in it[3])))
             else:
                 assert type(obj) is m["Scenario"], (p, obj)
                 o2p[id(obj)] = p
                 p2o[p] = obj
     for fi, (f, fo) in enumerate(zip(prog, feats)):
         walk(f, fo, (fi,))
+    if prebuild:
+        o2p.refresh(build=True)
     return o2p, p2o
 
 
@@ -307,7 +330,8 @@ def run_case(prog, cfg=None, faults=None, cleanups=None, hooks=False, record_eve
         except BaseException as e:          # noqa - property: nothing escapes
             obs["escaped"] = type(e).__name__
             obs["escaped_msg"] = str(e)[:200]
-        for path, obj in p2o.items():
+        o2p.refresh(build=True)     # expand outlines that the run never reached (after reporters/formatters ended)
+        for path, obj in list(p2o.items()):
             obs["status"][path] = obj.status.name
             if type(obj) is m["Scenario"]:
                 obs["steps"][path] = [s.status.name for s in obj.all_steps]
